@@ -426,6 +426,11 @@ func TestVerifC04(t *testing.T) {
 	counts := map[string]int64{}
 	harnessErr := ""
 	capped := false
+	type sample struct {
+		seq int64
+		v   any
+	}
+	var samples []sample
 	ch := make(chan *c04Job, 256)
 	var wg sync.WaitGroup
 	for w := 0; w < runtime.GOMAXPROCS(0); w++ {
@@ -456,8 +461,10 @@ func TestVerifC04(t *testing.T) {
 					sig += "|VIOL:" + v.key
 				}
 				rep.Outcome(sig, o.nontriv)
-				if len(o.viols) == 0 && o.nontriv && job.seq%499 == 0 {
-					rep.Sample(map[string]any{"case": job, "reads": o.reads, "outcome": o.sig})
+				if o.nontriv && job.seq%211 == 0 {
+					mu.Lock()
+					samples = append(samples, sample{job.seq, map[string]any{"case": job, "reads": o.reads, "outcome": sig}})
+					mu.Unlock()
 				}
 				if len(o.viols) > 0 {
 					mu.Lock()
@@ -487,6 +494,10 @@ func TestVerifC04(t *testing.T) {
 	}
 	close(ch)
 	wg.Wait()
+	sort.Slice(samples, func(i, j int) bool { return samples[i].seq < samples[j].seq })
+	for i := 0; i < len(samples); i += 1 + len(samples)/6 {
+		rep.Sample(samples[i].v)
+	}
 	if capped {
 		rep.Cap("deadline hit during case enumeration")
 	}
